@@ -356,6 +356,41 @@ def eval_family(case):
     return fails + f2
 
 
+# RHEL 5 trees do not list their addons: the reader supplies them from a table of its own (productmd/treeinfo.py, the
+# "workaround for RHEL 5").  Frozen here; every tree is read by a fresh object, all in ONE process, in the given order.
+RHEL5 = [("Server", "5.3", "ppc", ["Cluster", "ClusterStorage"]), ("Server", "5.3", "x86_64", ["Cluster", "ClusterStorage", "VT"]),
+         ("Server", "5.0", "ppc", []), ("Client", "5.3", "i386", ["VT", "Workstation"]), ("Server", "5.8", "s390x", []),
+         ("Server", "5.11", "ia64", ["Cluster", "ClusterStorage", "VT"]), ("Server", "5.9", "ppc", ["Cluster", "ClusterStorage"]),
+         ("Server", "5.1", "i386", ["Cluster", "ClusterStorage", "VT"]), ("Client", "5.0", "x86_64", ["VT", "Workstation"])]
+
+
+def eval_rhel5(case):
+    from productmd.treeinfo import TreeInfo
+    fails = []
+    for k in case["order"]:
+        var, ver, arch, addons = RHEL5[k]
+        text = ("[general]\nfamily = Red Hat Enterprise Linux %s\nversion = %s\narch = %s\nvariant = %s\ntimestamp = 1386857206.0\n"
+                "packagedir = %s\n" % (var, ver, arch, var, var))
+        what = "pre-productmd treeinfo of RHEL %s %s.%s (read as number %d of %s in this process)" % (ver, var, arch, case["order"].index(k) + 1,
+                                                                                                 [RHEL5[j][:3] for j in case["order"]])
+        t = TreeInfo()
+        try:
+            t.loads(text)
+        except Exception as exc:
+            fails.append("%s: rejected: %s: %s" % (what, type(exc).__name__, exc))
+            break
+        got = sorted(v.uid for v in t.variants.get_variants(recursive=True))
+        exp = sorted([var] + ["%s-%s" % (var, a) for a in addons])
+        if got != exp:
+            fails.append("%s: variants %s, the RHEL 5 table says %s" % (what, got, exp))
+            break
+        f2, _ = idempotence(TreeInfo, t, what, "productmd.treeinfo")
+        if f2:
+            fails += f2
+            break
+    return fails
+
+
 # ------------------------------------------------------------------ treeinfo
 
 def eval_treeinfo(case):
@@ -600,6 +635,9 @@ def run(ctx):
     ctx.evaluate(eval_treeinfo, cases, label="treeinfo-upgrade", chunk=100, key=lambda c: core._digest([c["obj"], c["ver"], c["rot"]]))
     ctx.evaluate(eval_fixture, fixtures(), label="fixture", chunk=10)
     ctx.evaluate(eval_family, [{"family": f} for f in sorted(FAMILIES)], label="family", chunk=20)
+    n5 = len(RHEL5)
+    orders = [list(range(n5)), list(reversed(range(n5))), [1, 0, 6, 7, 2, 3, 8, 4, 5], [6, 6, 1, 0, 0, 7]]
+    ctx.evaluate(eval_rhel5, [{"order": o} for o in orders], label="rhel5", chunk=1)
     ctx.exhaustive = True
 
 
@@ -607,6 +645,8 @@ def replay(info):
     k = info["kind"]
     if k == "family":
         return eval_family(info["case"])
+    if k == "rhel5":
+        return eval_rhel5(info["case"])
     if k == "rpms-history":
         return rpms_adapter.replay(info["case"])
     if k == "history":
